@@ -171,7 +171,10 @@ def run_and_validate(out, wd, docs, label, devs, props, max_fail_per_chunk=4):
         with open(hp, "w") as f:
             json.dump(ch, f)
         jobs.append(["store-run", hp, os.path.join(wd, f"{label}.{i}.scr"), os.path.join(wd, f"{label}.{i}.ndjson")])
+    if props == "C04":
+        os.environ["VH_SETSUM"] = "1"
     crashed = [r for r in run_vh_parallel(jobs, timeout=900) if r.get("crashed")]
+    os.environ.pop("VH_SETSUM", None)
     import concurrent.futures
     import re
 
@@ -310,3 +313,86 @@ def check_C03(replay=None):
 
 def check_C05(replay=None):
     return check_store("C05", replay)
+
+
+def gen_tamper_history(rng, i):
+    nkeys = rng.choice([2, 3])
+    opts = {"memtable-size-bytes": 1 << 26, "max-compaction-files": rng.choice([2, 3, 64]),
+            "l0-mandatory-compaction-threshold-files": rng.choice([1, 2]), "mani-log-rollover-ratio": rng.choice([0, 1, 1])}
+    ops = []
+    vid = 0
+    for rnd in range(rng.randint(3, 5)):
+        for _ in range(rng.randint(1, 3)):
+            vid += 1
+            ops.append(["put", rng.randint(1, nkeys), vid] if rng.random() < 0.8 else ["del", rng.randint(1, nkeys)])
+        ops.append(["flush"])
+        ops += [["compact"]] * 18
+        if rng.random() < 0.4:
+            ops.append(["reopen"])
+    ops += [["verify"], ["reopen"], ["compact"], ["reopen"]]
+    return {"run": i, "mode": "kvs", "opts": opts, "keyset": "plain", "nkeys": nkeys, "pad": 0, "ops": ops}
+
+
+def check_C04(replay=None):
+    prop = "C04"
+    out = Outcome(prop)
+    wd = vlib.workdir()
+    devs = vlib.open_deviations({"C01", "C03", "C04", "C05", "C08"})
+    rng = random.Random(vlib.seed() * 7919 + 4)
+    thorough = vlib.tier() != "quick"
+    if replay:
+        body = json.load(open(replay))
+        docs = [body["doc"]]
+    else:
+        n = 30 if not thorough else 300
+        docs = [gen_history(rng, i, "kvs", 50 if not thorough else 110, "C05") for i in range(n)]
+        # frequent manifest roll-overs in half of them, so that fragments chain many times
+        for d in docs[::2]:
+            d["opts"]["mani-log-rollover-ratio"] = rng.choice([0, 1])
+    failures = run_and_validate(out, wd, docs, "acct", devs, prop)
+    for f in failures:
+        path = replay or vlib.save_replay(prop, "store-history", {"doc": f["doc"], "matched": f["matched"], "guard": f.get("guard"),
+                                                                  "violated": f["violated"], "event": f["event"]})
+        out.violation(path, f"violated={f['violated']} guard={f.get('guard')} at event {f['matched']}: {summarize_event(f['event'])}")
+    # rejection half
+    if not replay:
+        tdocs = [gen_tamper_history(rng, i) for i in range(4 if not thorough else 24)]
+        jobs = []
+        for i, d in enumerate(tdocs):
+            hp = os.path.join(wd, f"tamper{i}.json")
+            json.dump([d], open(hp, "w"))
+            jobs.append(["store-tamper", hp, os.path.join(wd, f"tscr{i}"), os.path.join(wd, f"tamper{i}.ndjson")])
+        res = run_vh_parallel(jobs, timeout=1800)
+        for i, x in enumerate(res):
+            for v in x.get("violations", []):
+                out.violation(v["replay"], json.dumps(v["mismatch"])[:300])
+            if x.get("crashed"):
+                continue
+            tp = os.path.join(wd, f"tamper{i}.ndjson")
+            r = run_tlc("Trace_Tamper", cfg_text(spec="TraceSpec", postcondition="TraceAccepted"), wd, f"ttamper{i}", workers=1, timeout=900,
+                        dfs=True, heap="2g", env_extra={"TRACE": tp})
+            text = open(r.out, errors="replace").read()
+            nlines = sum(1 for _ in open(tp))
+            out.states += r.distinct
+            out.transitions += r.generated
+            import re
+            m = re.search(r'"matched", (\d+), "of", (\d+)', text)
+            if m or r.distinct < nlines + 1:
+                if r.error and not m:
+                    raise ToolError(f"TLC Trace_Tamper: {r.error} ({r.out})")
+                g = re.findall(r'"GUARD-FAILED",\s*"([^"]+)"', text)
+                lines = open(tp).read().splitlines()
+                at = int(m.group(1)) if m else 0
+                path = vlib.save_replay(prop, "tamper", {"doc": tdocs[i], "guard": g[-1] if g else None, "event": json.loads(lines[at]) if at < len(lines) else None})
+                out.violation(path, f"tamper: guard={g[-1] if g else None} event={lines[at][:200] if at < len(lines) else None}")
+            else:
+                out.traces += 1
+                out.extra["tampers_checked"] = out.extra.get("tampers_checked", 0) + max(0, nlines - 1)
+    for k in vlib.load_known():
+        if k["status"] == "open" and k.get("deviation") in out.extra.get("deviations_exercised", []):
+            out.known(k["id"], f"{k['deviation']}: {k['what'][:200]}")
+    out.samples = [json.dumps(d, separators=(",", ":"))[:600] for d in docs[:2]]
+    out.extra["rule"] = ("store histories validated against Trace_Tree with setsum accounting on every manifest transaction (Setsum.tla column "
+                         "arithmetic on the logged digests and per-entry hashes); then one altered hex digit per recorded digest per transaction "
+                         "of every verifier-processed fragment, verdicts validated against Trace_Tamper")
+    return out.finish("model_checking", ASSUMPTIONS + ["digests are handed to TLC as eight columns of two 16-bit limbs; per-entry hashes are computed by sst::Setsum on single entries (SHA3 uninterpreted)"])
